@@ -8,12 +8,12 @@ Oracle : runs computed with != on consecutive predicate values: every item in ex
 """
 import itertools
 
-from ..common import Check, Outcome, bootstrap, interleave, with_prelude, prelude_tags, shrink_prelude, PRELUDE_TAGS, PRELUDE_RULE
+from ..common import Check, Outcome, bootstrap, interleave, with_prelude, with_reuse, prelude_tags, shrink_prelude, PRELUDE_TAGS, PRELUDE_RULE
 from .. import windows, model, progs
 
 rs = bootstrap()
 
-PREDS = ['div:%d', 'divt:%d', 'divs:%d', 'divbig:%d', 'divpar:%d', 'divhuge:%d', 'divf:%d', 'divnp:%d', 'divnpf:%d', 'divbool:%d', 'divcent:%d', 'divnone:%d', 'divnan:%d', 'divobj:%d', 'divobjt:%d']
+PREDS = ['div:%d', 'divt:%d', 'divs:%d', 'divbig:%d', 'divpar:%d', 'divhuge:%d', 'divf:%d', 'divnp:%d', 'divnpf:%d', 'divbool:%d', 'divcent:%d', 'divnone:%d', 'divnan:%d', 'divobj:%d', 'divobjt:%d', 'divtag:%d']
 
 
 def expected_segments(xs, pred):
@@ -53,11 +53,11 @@ class C06(Check):
     RULE += PRELUDE_RULE
     ASSUMPTIONS = ['predicate values are compared with != only (no hashing)']
     ANCHORS = ['rxsci/data/split.py', 'rxsci/operators/multiplex.py']
-    REQUIRED_TAGS = ['top', 'group', 'roll', 'roll_eq', 'split', 'pred=divt', 'pred=divs', 'pred=divbig', 'pred=divhuge', 'pred=divnp', 'pred=divbool', 'pred=divnone', 'pred=divnan', 'pred=divobj', 'pred=divobjt', 'single-run', 'runs-of-1', 'empty-key'] + PRELUDE_TAGS
+    REQUIRED_TAGS = ['top', 'group', 'roll', 'roll_eq', 'split', 'pred=divt', 'pred=divs', 'pred=divbig', 'pred=divhuge', 'pred=divnp', 'pred=divbool', 'pred=divnone', 'pred=divnan', 'pred=divobj', 'pred=divobjt', 'pred=divtag', 'single-run', 'runs-of-1', 'empty-key'] + ['operator-object-used-in-two-pipelines'] + PRELUDE_TAGS
     REQUIRED_OBSERVED = ['child_lifetimes_checked', 'parent_lifetimes_checked']
 
     def generate(self, rng, tier, shard, nshards):
-        return with_prelude(self._generate(rng, tier, shard, nshards), rng)
+        return with_prelude(with_reuse(self._generate(rng, tier, shard, nshards)), rng)
 
     def _generate(self, rng, tier, shard, nshards):
         return interleave(self._box(tier, shard, nshards), self._nested(rng, tier))
@@ -96,7 +96,9 @@ class C06(Check):
         items = case['items']
         pred = progs.fn(case['pred'])
         out.tags += [case['parent'].split('>')[0], 'pred=' + case['pred'].split(':')[0]]
-        ob = windows.observe(case['parent_node'], ['split', case['pred'], None], items, prelude=case.get('prelude'))
+        if case.get('reuse'):
+            out.tags.append('operator-object-used-in-two-pipelines')
+        ob = windows.observe(case['parent_node'], ['split', case['pred'], None], items, prelude=case.get('prelude'), reuse=bool(case.get('reuse')))
         prelude_tags(case, out)
         if ob.snap.err is not None or not ob.snap.done:
             return out.fail('split:stream-error', error=repr(ob.snap.err), done=ob.snap.done)
